@@ -4,25 +4,25 @@ namespace XpmVerif.Runner
 
 /-- locations at which the run lock is held by the main flow -/
 def Loc.holding : Loc → Bool
-  | .locked | .rmFailed | .setStarted | .callBody | .body _ | .bodyDone | .restTerm | .restInt | .sysExit | .touch => true
+  | .locked | .rmFailed | .setStarted | .callBody | .body _ | .raised0 | .bodyDone | .restTerm | .restInt | .sysExit | .touch => true
   | _ => false
 
 /-- locations at which both Python handlers are installed and the clean-up is registered -/
 def Loc.handled : Loc → Bool
-  | .pre | .tryLock | .locked | .rmFailed | .setStarted | .callBody | .body _ | .bodyDone | .skipped => true
+  | .pre | .tryLock | .locked | .rmFailed | .setStarted | .callBody | .body _ | .raised0 | .bodyDone | .skipped => true
   | _ => false
 
 def Loc.hasReg : Loc → Bool
-  | .reg | .term | .pre | .tryLock | .locked | .rmFailed | .setStarted | .callBody | .body _ | .bodyDone | .skipped => true
+  | .reg | .term | .pre | .tryLock | .locked | .rmFailed | .setStarted | .callBody | .body _ | .raised0 | .bodyDone | .skipped => true
   | _ => false
 
 def Loc.hasTerm : Loc → Bool
-  | .term | .pre | .tryLock | .locked | .rmFailed | .setStarted | .callBody | .body _ | .bodyDone | .skipped => true
+  | .term | .pre | .tryLock | .locked | .rmFailed | .setStarted | .callBody | .body _ | .raised0 | .bodyDone | .skipped => true
   | _ => false
 
 /-- between the end of the body and the success marker -/
 def Loc.postBody : Loc → Bool
-  | .bodyDone | .restTerm | .restInt | .sysExit | .touch => true
+  | .raised0 | .bodyDone | .restTerm | .restInt | .sysExit | .touch => true
   | _ => false
 
 /-- inside `handle_error` of an `except` clause or in interpreter finalisation -/
